@@ -335,7 +335,7 @@ def run_twin(case):
     k, mask, seq = case
     logs = []
     hits = {}
-    for mode in ('drop', 'remove', 'keep'):
+    for mode in ('drop', 'remove'):
         envx = Env()
         envx.log = []
         d = desper.EventDispatcher()
@@ -350,11 +350,13 @@ def run_twin(case):
             if mask >> j & 1:
                 if mode == 'drop':
                     objs[j] = None
-                elif mode == 'remove':
+                else:
                     d.remove_handler(objs[j])
         keep = []
         n = 0
         enabled = True
+        listeners = k - bin(mask).count('1')
+        free = set()    # tokens dispatched, disabled, with nobody listening
         try:
             for op in seq:
                 if op == 'disable':
@@ -365,12 +367,15 @@ def run_twin(case):
                     n += 1
                     if not enabled:
                         hits['dispatch_while_disabled_after_drop'] = 1
+                        if not listeners:
+                            free.add(n)
                     d.dispatch('go', n)
                 elif op == 'add':
                     late = Late(envx, 9)
                     late._h = 99
                     keep.append(late)
                     d.add_handler(late)
+                    listeners += 1
                     if not enabled and n:
                         hits['listener_added_over_a_backlog'] = 1
             d.dispatch_enabled = True
@@ -378,19 +383,11 @@ def run_twin(case):
         except Exception as exc:
             raise Violation('dispatch_raises_nothing',
                             f'{case} ({mode}): {exc!r}', variant='twin')
-        # (mode keep: the listeners of the mask stay registered - what they
-        # hear themselves is set aside)
-        logs.append(sorted((r for r in envx.log
-                            if not (r[1] < k and mask >> r[1] & 1)),
+        # an event dispatched while disabled when nobody listened may be
+        # held or dropped (C04): its deliveries are set aside
+        logs.append(sorted((r for r in envx.log if r[0] not in free),
                            key=repr))
         del objs, keep
-    if logs[0] != logs[2]:
-        raise Violation(
-            'dropped_handler_leaves_later_dispatches_alone',
-            f'{case}: with the listeners of mask {mask} dropped the other '
-            f'listeners receive (token, listener) {logs[0]}; with those '
-            f'listeners still registered they receive {logs[2]} (an event '
-            f'that has had handlers stays a known event)', variant='twin')
     if logs[0] != logs[1]:
         raise Violation(
             'dropped_handler_leaves_dispatcher_as_removed_one',
@@ -552,10 +549,9 @@ def run(tier, rep):
         'after losing a listener to the garbage collector exactly as after '
         'remove_handler of that listener, under every later history of '
         'disable / dispatch / one new listener / enable up to the stated '
-        'length (deliveries compared as a multiset of (token, listener)); '
-        'and what the *other* listeners receive is what they receive when '
-        'the listener is still registered (dispatch documents that an event '
-        'which has had handlers is not an unknown event)',
+        'length (deliveries compared as a multiset of (token, listener); '
+        'events dispatched while disabled when nobody listened are free - '
+        'C04 - and set aside)',
         'part detached-while-disabled (E2): the postponed on_remove is what '
         'still refers to a component detached while dispatching is '
         'disabled; once it is delivered (the program enables again after '
